@@ -202,6 +202,15 @@ def defect_class(case):
         c = repeat_class(a)
         if order[c] > order[worst]:
             worst = c
+    if worst == "rr":
+        # the read-only repeated task directly after a wait point: inserted when the writer before
+        # it has completed (the "parent is not alive" path) - a finding of its own
+        fields = [f.strip() for f in case.partition("|")[2].split(";")]
+        for i, f in enumerate(fields):
+            if i > 0 and fields[i - 1] == "!" and f not in ("!", "", "."):
+                acc = [(int(a[:-1]), a[-1]) for a in f.lstrip(">").split() if a != "."]
+                if repeat_class(acc) == "rr":
+                    return "repeat-rr-late"
     if worst:
         return "repeat-" + worst
     if hdr["sched"] in LIFO_SCHEDS:
@@ -326,6 +335,14 @@ class DTDCheck(Check):
                     tl = tasks[:nt - nk] + [(True, a) for (_, a) in tasks[nt - nk:]]
                 out.append(case_txt(ndata, th, sc, w, h, spin, flags, tl))
         return out
+
+    def late_rr_cases(self):
+        # read-only repeated tile inserted AFTER the writer before it completed (wait point first):
+        # each flow is retained by its own walk, the second releases the first at insertion,
+        # completion releases one per flow: readers = -1, later writers do not wait for a reader
+        r4 = " ; ".join(["0r ; 0r ; 0r ; 0r ; 0x"] * 12)
+        return ["dtd 1 %d rnd 0 0 %d 0 | 0x ; ! ; %s ; ! ; %s" % (th, s, t, r4)
+                for th, s, t in ((3, 0, "0r 0r"), (3, 5, "0r 0r"), (2, 0, "0r 0r 0r"), (3, 7, "0r 0r 0r"))]
 
     def rr_cases(self, n):
         """one task reading the same tile through several READ-ONLY parameters, inserted while the
